@@ -32,7 +32,7 @@ add("C02", "exploration", E1 + " (independent codec mc.refcodec in both directio
     "identifier, non-minimal msgpack classes, repeated descriptor/header frames) and a golden corpus frozen at the pinned revision "
     "are read back as the records they encode.",
     "mc.refcodec is the trusted statement of the format; byte identity with the golden files is reported, not judged.", "DESIGN.md C02")
-add("C03", "model_checking", E2 + " to a fixpoint of the descriptor-registry machine (binary and JSON packers, 1-3 writers)",
+add("C03", "model_checking", E2 + " to a fixpoint of the descriptor-registry machine (binary and JSON packers, 1-3 writers); plus a TLA+ model checked by TLC whose every state-graph edge is replayed on the real writers (conformance as registry refinement)",
     "All reachable registry states of 1..2 (3 thorough) simultaneously open writers over a kind set with same-name, "
     "identifier-coinciding, nested-only and grouped-only types are visited to a fixpoint; on every transition the appended frames are "
     "decoded by the reference decoder and by the real reader and must carry the descriptor the record was created with; other "
@@ -154,6 +154,31 @@ add("C16", "fault_enumeration", E3 + " applied to rdump's source list (every pla
     "13 writer kinds decode, each with its own independent parser, to the records of the reference projection/expansion models.",
     "--count 0 means no limit; the intact prefix of a source with a damaged compressed body is undefined (only later sources judged).", "DESIGN.md C16")
 
+
+# what the later rounds added (DESIGN.md section 6); appended to the claim text of each check
+EXTRA = {
+    "C01": " Channels added later: records that were read are written and read again, pathlib/stream()/record_stream() helper doors, a reader consumed in two goes; descriptors born through extend/clone/string definition/_unpack/merge, alias-spelled twins, field-less and generator-built grouped shapes.",
+    "C02": " 11 wire variants (also names as msgpack bin, bare names with repeated announcements), registries of 255..1025 (70 000 thorough) types, resumed reading.",
+    "C03": " Further machines: derived descriptors, field-less types, generator-built groups, warnings-as-errors; resumed reading by both readers. A TLA+ model of the announcement protocol (tla/DescriptorProtocol.tla) is checked by TLC and EVERY edge of its state graph is replayed on real writers (registry refinement).",
+    "C04": " Plus a stream with one 70 kB frame (cuts of its gzip image, write faults on it).",
+    "C05": " Plus typed values and typed list objects of other field types, every constructor the datetime type inherits, a value oracle for the named conversions, and child interpreters under FLOW_RECORD_TZ / FLOW_RECORD_IGNORE.",
+    "C06": " Plus string-only definitions through constructor / nil-fields frame / null-fields JSON line, the clone constructor, valid prefixes of 63..65 536 characters, field-less definitions, keyword-named fields next to invalid ones.",
+    "C07": " Plus falsy-valued fields in helpers, literal lists of 2..65 constants, the helper x option x letter-case product, and every dotted constructor evaluated first thing in a fresh interpreter with one engine only.",
+    "C08": " Plus chains of 3 and 4 links, legacy constructors as the other operand, grouped records in the heterogeneous streams.",
+    "C09": " Plus one Selector object reused over records (twice), generator variables named like every namespace name, NFKC spellings of dunders/builtins, names containing 'NoneType', helper x option purity programs.",
+    "C10": " Plus selector pairs on one record object, 130 (300) repetitions of one selector on one and on alternating records, concatenated sources, the selector inside the URI query, a same-names-other-types record.",
+    "C11": " Plus scheme+file-object and scheme+stdin namings, clobber=False writing, two interleaved writers per codec.",
+    "C12": " Plus equal instants under several offsets, nested records differing in an ignored field, dict key order, scopes made before they are entered, BaseException exits, eight argument forms, child interpreters under FLOW_RECORD_IGNORE.",
+    "C13": " Plus all values through ONE writer per format, every ordered pair of values sharing a ZoneInfo object, the doors a timestamp enters a record through (constructor, list, assignment, grouped assignment, _generated), Avro files with plain-long microseconds.",
+    "C14": " Plus documents beyond 128 KiB, grouped records, output to standard output closed with and without flush, reserved keys of descriptor-less lines.",
+    "C15": " Plus one-shot iterables, falsy replacement values, copy independence, grouped members sharing field names, the rewriter's expression over histories with raising records.",
+    "C16": " Plus generator selectors that stop early and selectors true without the field.",
+    "C17": " Plus SQLite batch sizes 2/3, RecordArchiver and archive:// doors, offset timestamps, a .zst template.",
+    "C18": " Plus a same-size type evolution (A~), refused table creation mid-batch, debug logging switched on, long values.",
+    "C19": " Plus flush-first / flush-between / bare-close / mid-flush closings, the stdout door, grouped records, child interpreters under TZ.",
+    "C20": " Plus refused CSV writes, templates mixing escapes and non-ASCII text, the headerless CSV door, selections that leave nothing.",
+}
+
 NOT_BUILT = "check not built yet in this round (design in DESIGN.md section 3); not claimed until it runs"
 
 
@@ -187,6 +212,7 @@ def main():
     for pid in props:
         if pid in CHECKS and os.path.exists(os.path.join(HERE, "checks", pid.lower() + ".py")):
             cat, tech, text, note, ref = CHECKS[pid]
+            text = text + EXTRA.get(pid, "")
             man["checks"].append({
                 "property_id": pid,
                 "quick_cmd": "./check %s --tier quick" % pid,
